@@ -46,6 +46,8 @@ REPORTED = {
                                 "string of the arguments / retval member",
     "chrome-comm-event-escape": "dump --chrome printed the new name of a renamed task (perf COMM event) raw into the "
                                 "process_name/thread_name metadata events",
+    "dump-sched-preempt": "do_dump_replay did not pass the sched-out event of a pre-empted task to the exporters: the "
+                          "sched-in that follows closed something never opened (chrome: E without B; graphs: wrong parent)",
     "chrome-comm-escape": "dump --chrome prints task->comm raw in the process_name/thread_name events: a double "
                           "quote or backslash in the executable's file name gives invalid JSON",
 }
@@ -122,8 +124,8 @@ def gen_case(rng, pool, big=False, avoid_trunc=True):
     comms = []
     if with_perf and rng.random() < 0.8:
         sched_sym = nsym
-        syms.append(SCHED)
-        nsym += 1
+        syms += [SCHED, SCHED_PRE]
+        nsym += 2
     ntask = rng.choice([1, 1, 2, 2, 3])
     tasks = [(100, 100, None)]
     if ntask >= 2:
@@ -150,18 +152,18 @@ def gen_case(rng, pool, big=False, avoid_trunc=True):
             comms.append((clock, tid, rng.choice([b"worker", b'na"me', b"back\\slash", b"tab\there", b"\x01\x7f\xff", b"fifteen-bytes-xy",
                                                    "caf\u00e9".encode(), pool.one()])[:15]))
             clock += 1
-        if st and st[-1] == sched_sym:
+        if st and sched_sym is not None and st[-1] in (sched_sym, sched_sym + 1):
             recs.append((tid, False, st.pop(), clock))             # switched in again
         elif st and sched_sym is not None and rng.random() < 0.25:
-            st.append(sched_sym)                                   # switched out inside a function
-            recs.append((tid, True, sched_sym, clock))
+            st.append(sched_sym + rng.randrange(2))                # switched out / pre-empted inside a function
+            recs.append((tid, True, st[-1], clock))
         elif st and (len(st) >= maxd or rng.random() < 0.45):
             recs.append((tid, False, st.pop(), clock))
         else:
             if st and recursion and rng.random() < 0.5:
                 k = st[-1] if rng.random() < 0.5 else rng.choice(st)      # direct / mutual recursion
             else:
-                k = rng.randrange(nsym - (1 if sched_sym is not None else 0))
+                k = rng.randrange(nsym - (2 if sched_sym is not None else 0))
             st.append(k)
             recs.append((tid, True, k, clock))
             budget -= 1
@@ -171,7 +173,7 @@ def gen_case(rng, pool, big=False, avoid_trunc=True):
     for tid, _, _ in tasks:
         st = stacks[tid]
         keep = rng.randrange(0, len(st) + 1) if (leave_open and st) else 0
-        if st and st[-1] == sched_sym:
+        if st and sched_sym is not None and st[-1] in (sched_sym, sched_sym + 1):
             keep = min(keep, len(st) - 1)                          # never left switched out
         while len(st) > keep:
             clock += rng.choice(steps[1:])
@@ -274,7 +276,8 @@ def write_dir(case, d, cmdline=b"prog arg", with_cmdline=True, exename=None):
         return b
     for tid, pid, ppid in case["tasks"]:
         rr = [{"t": t, "type": datadir.ENTRY if ent else datadir.EXIT, "depth": 0, "addr": BASE + syms[k][0],
-               "payload": payload(i), "sched": k == case.get("sched_sym")}
+               "payload": payload(i),
+               "sched": case.get("sched_sym") is not None and k in (case["sched_sym"], case["sched_sym"] + 1)}
               for i, (x, ent, k, t) in enumerate(case["recs"]) if x == tid]
         depth = 0
         for r in rr:                       # depth field as libmcount writes it
@@ -305,6 +308,7 @@ def write_dir(case, d, cmdline=b"prog arg", with_cmdline=True, exename=None):
 
 
 SCHED = b"linux:schedule"
+SCHED_PRE = b"linux:schedule (pre-empted)"
 
 
 def perf_file(case):
@@ -315,8 +319,9 @@ def perf_file(case):
     pid_of = {t[0]: t[1] for t in case["tasks"]}
     if k is not None:
         for (tid, ent, sym, tm) in case["recs"]:
-            if sym == k:
-                evs.append((tm, struct.pack("<IHH", 14, 0x2000 if ent else 0, 24) + struct.pack("<IIQ", pid_of[tid], tid, tm)))
+            if sym in (k, k + 1):            # k: switched out, k + 1: pre-empted (PERF_RECORD_MISC_SWITCH_OUT_PREEMPT)
+                misc = (0x2000 | (0x4000 if sym == k + 1 else 0)) if ent else 0
+                evs.append((tm, struct.pack("<IHH", 14, misc, 24) + struct.pack("<IIQ", pid_of[tid], tid, tm)))
     for (tm, tid, name) in case.get("comms") or []:
         cm = name[:15] + b"\0"
         cm += b"\0" * (-len(cm) % 8)
@@ -772,7 +777,7 @@ def parse_backtraces(out):
 
 def run_graphf(objdir, c, d, rng, func=None):
     """`uftrace graph FUNC` on the directory written by run_case -> (func, rows | None)"""
-    cands = [n for n in set(c["syms"]) if not n.startswith(b"-") and n != SCHED]
+    cands = [n for n in set(c["syms"]) if not n.startswith(b"-") and n not in (SCHED, SCHED_PRE)]
     if func is None:
         nested = sorted(n for n in cands if "nested" in func_shape(c, n))
         if nested and rng.random() < 0.6:
@@ -1088,6 +1093,18 @@ def witnesses(ctx, objdir, hexe):
     repro["chrome-comm-event-escape"] = rc != 0 or not parse_chrome(out)[0] or out.count(b'"process_name"') != 2
     report_defect(ctx, "chrome-comm-event-escape", repro["chrome-comm-event-escape"],
                   {"kind": "witness", "renamed_to": 'na"me\\x', "case": case_json(renc)})
+    # 10. a pre-empted context switch inside a function
+    prec = {"tasks": [(100, 100, None)], "syms": [b"main", b"f", SCHED, SCHED_PRE], "sched_sym": 2, "sample": 100, "exe": "prog",
+            "recs": [(100, True, 0, 1000), (100, True, 1, 1100), (100, True, 3, 1300), (100, False, 3, 1400),
+                     (100, True, 1, 1500), (100, False, 1, 1600), (100, False, 1, 2200), (100, False, 0, 2500)]}
+    write_dir(prec, d)
+    rc, out, err = uft(objdir, ["dump", "--chrome", "--no-pager", "-d", d])
+    okj, evs, _, _ = parse_chrome(out)
+    rc2, out2, err2 = uft(objdir, ["dump", "--flame-graph", "--no-pager", "-d", d])
+    ctx.case(key=("wit", "preempt"), tags=["witness:pre-empted-switch"])
+    repro["dump-sched-preempt"] = (rc != 0 or not okj or sum(1 for e in evs if e[0]) != sum(1 for e in evs if not e[0])
+                                   or b"main;f;f 1" not in out2)
+    report_defect(ctx, "dump-sched-preempt", repro["dump-sched-preempt"], {"kind": "witness", "case": case_json(prec)})
     # sanity: the plain directory is valid JSON
     ok, out = chrome_ok()
     if not ok:
@@ -1300,6 +1317,8 @@ def tags_of(c):
         t.append("forked-task")
     if c.get("sched_sym") is not None and any(r[2] == c["sched_sym"] for r in c["recs"]):
         t.append("perf:sched-out/in")
+    if c.get("sched_sym") is not None and any(r[2] == c["sched_sym"] + 1 for r in c["recs"]):
+        t.append("perf:pre-empted")
     if c.get("comms"):
         t.append("perf:task-renamed")
         if any(b in (0x22, 0x5c) or b < 0x20 or b > 0x7e for _, _, nm in c["comms"] for b in nm):
